@@ -291,7 +291,9 @@ func Explore(testName string, rep *core.Report, runs []Run) {
 				if crash != "" && strings.Contains(crash, "HARNESS-ERROR:") {
 					core.HarnessError("worker reported a harness error in scenario %s arg %s prefix %v: %s", r.Scenario, argb, job.Prefix, crash)
 				}
-				if crash != "" {
+				if crash != "" && ExploreKeep != nil && !ExploreKeep("crash.process."+crashKeyFromStderr(crash)) {
+					rep.Add("violations_of_other_properties_seen_and_left_to_their_checks", 1)
+				} else if crash != "" {
 					rep.Violate("crash.process."+crashKeyFromStderr(crash), fmt.Sprintf("worker process died while executing scenario %s arg %s prefix %v:\n%s", r.Scenario, argb, job.Prefix, crash),
 						map[string]any{"scenario": r.Scenario, "arg": r.Arg, "choices": job.Prefix})
 					return
